@@ -145,7 +145,8 @@ F('context_parse', r'constexpr\s+std::optional<root_value_type>\s+context_parse\
 
 # the prologue the fragment drops: its content is pinned as static facts (initial parse_state)
 FACTS = PC.FACTS + [
-    r'current_sp\{1, 1\},\s*current_it\(buffer_begin\),\s*current_end_it\(buffer_begin\),\s*buffer_end\(buffer_end\),\s*reductors\(reductors\),\s*current_term_idx\(uninitialized16\),\s*recovery_mode\(false\),\s*consume_mode\(false\)',
+    # initial parse_state: each initializer the driver fragment relies on (others may be added to the class: see ps_members)
+    r'\bcurrent_sp\{1, 1\}', r'\bcurrent_it\(buffer_begin\)', r'\bcurrent_end_it\(buffer_begin\)', r'\bbuffer_end\(buffer_end\)', r'\bcurrent_term_idx\(uninitialized16\)', r'\brecovery_mode\(false\)', r'\bconsume_mode\(false\)',
     r'detail::parse_state ps\(cursor_stack, value_stack, error_stream, options, buffer\.begin\(\), buffer\.end\(\), reductors\);\s*ps\.cursor_stack\.push_back\(0\);',
     r'constexpr match_options& set_verbose\(bool val = true\) \{ verbose = val; return \*this; \}',
     r'constexpr std::string_view get_view\(iterator start, iterator end\) const \{ return std::string_view\(start\.ptr, end\.ptr - start\.ptr\); \}',
@@ -237,5 +238,31 @@ UNIT.fns.append(stack_caps)
 UNIT.enums = PC.ENUMS
 UNIT.facts = FACTS
 UNIT.typedefs = PC.RT_TYPEDEFS
+
+
+def ps_members(src):
+    """R3: data members of detail::parse_state that the recipe does not list become globals ps_<name> too (types the lowering knows);
+    a member of any other type is an extraction break"""
+    from vx.lower import ExtractionBreak
+    known = {'cursor_stack', 'value_stack', 'error_stream', 'options', 'current_sp', 'current_it', 'current_end_it', 'buffer_end', 'reductors', 'current_term_idx', 'recovery_mode', 'consume_mode'}
+    ctype = {'source_point': 'struct source_point', 'parse_options': 'struct parse_options', 'bool': 'bool', 'size_t': 'size_t', 'size16_t': 'size16_t', 'size32_t': 'size32_t', 'int': 'int', 'char': 'char', 'iterator': 'const char*'}
+    lo, hi = src.scope(PSTATE)
+    body = src.text[lo:hi]
+    tail = body[body.index('using iterator = Iterator;'):]
+    out, seen = [], set()
+    for m in re.finditer(r'(?m)^\s*((?:const\s+)?[\w:]+(?:\s*&)?)\s+(\w+)\s*;', tail):
+        t, n = m.group(1).strip(), m.group(2)
+        seen.add(n)
+        if n in known:
+            continue
+        if t not in ctype:
+            raise ExtractionBreak('parse_state has a new member %s of type %s the lowering has no C type for' % (n, t))
+        out.append('%s ps_%s;   /* parse_state::%s (not in the recipe: declared from the real text) */' % (ctype[t], n, n))
+    if not known <= seen:
+        raise ExtractionBreak('parse_state lost members: %s' % sorted(known - seen))
+    return '\n'.join(out) + '\n'
+
+
+UNIT.prelude_hook = ps_members
 from vx.core import apply_spec
 apply_spec(UNIT.fns, os.path.join(os.path.dirname(os.path.abspath(__file__)), '..', 'contracts', 'driver.spec'))
